@@ -376,6 +376,12 @@ mm 0{}", "+0".repeat(n)));
         e.push_str(&format!(".dw low(ex{})", n));
         add(&format!("equ-doubling-chain-{}", n), e);
     }
+    // substitution of a long argument into a line that mentions the parameter very often: the length
+    // limit of an expanded line must act before the text is built
+    for (uses, arg_len) in [(1000usize, 1000usize), (16000, 30000), (30000, 60000), (60000, 60000)] {
+        add(&format!("macro-substitution-{}-uses-x-{}-characters", uses, arg_len), format!(".macro m\n.dw {}0\n.endm\nm {}", "@0+".repeat(uses), "a".repeat(arg_len)));
+        add(&format!("macro-substitution-second-parameter-{}-uses-x-{}-characters", uses, arg_len), format!(".macro m\n.db @0, {}0\n.endm\nm 1, {}", "@1|".repeat(uses), "b".repeat(arg_len)));
+    }
     add("macro-argument-doubling", ".macro m\n m @0+@0\n.endm\n m 1".into());
     add("macro-argument-doubling-two", ".macro m\n m @0*@0, @1\n.endm\n m 1, r16".into());
     add("macro-argument-growing-nested", ".macro a\n b (@0)+(@0)+(@0)\n.endm\n.macro b\n a (@0)|(@0)\n.endm\n a 1".into());
